@@ -12,3 +12,5 @@ import FinProtoc.Conforms
 import FinProtoc.Explain
 import FinProtoc.Load
 import FinProtoc.Sample
+import FinProtoc.Visit
+import FinProtoc.VisitDump
